@@ -140,7 +140,7 @@ def audit_sources():
     return bad
 
 
-def proof_obligations(prop):
+def proof_obligations(prop, tier="quick"):
     """Build the property's theorem module and audit the axioms of each theorem.
     Returns dict(obligations, discharged, failures[list of str], theorems[list])."""
     modules = getattr(prop, "THEOREM_MODULES", None) or [prop.THEOREM_MODULE]
@@ -185,6 +185,14 @@ def proof_obligations(prop):
         else:
             res["discharged"] += 1
     res["axioms"] = sorted(axioms_used)
+    if tier == "thorough" and not res["failures"]:
+        # independent re-check of the compiled theorem modules by the toolchain's leanchecker (replays every
+        # declaration of the .olean files through the kernel)
+        rc, out, err = sh(["lake", "env", "leanchecker"] + modules, cwd=LEAN, timeout=3600)
+        res["leanchecker"] = "accepted" if rc == 0 else "rejected"
+        if rc != 0:
+            res["failures"].append("leanchecker rejects the theorem modules: " + (out + err)[-800:])
+            res["discharged"] = 0
     return res
 
 
@@ -440,7 +448,7 @@ def check_property(pid, tier, seed, replay=None):
     known_keys = {d["key"]: d for d in kf["finding"] if d["property"] == pid and d["key"]}
 
     tr_failures = run_translator()
-    pres = proof_obligations(prop)
+    pres = proof_obligations(prop, tier)
     pres["failures"] = tr_failures + pres["failures"]
     proof_broken = bool(pres["failures"])
     if proof_broken and "build_log" in pres and not os.path.exists(SIMDRV):
@@ -604,7 +612,7 @@ def check_property(pid, tier, seed, replay=None):
         "coverage": {
             "obligations": pres["obligations"], "discharged": pres["discharged"],
             "theorems": pres["theorems"], "axioms_used": pres.get("axioms", []),
-            "proof_failures": pres["failures"],
+            "proof_failures": pres["failures"], "leanchecker": pres.get("leanchecker", "not run (thorough tier only)"),
             "checker_cmd": f"cd lean && lake build {' '.join(getattr(prop, 'THEOREM_MODULES', None) or [prop.THEOREM_MODULE])} && lake env lean ../work/{pid}/Audit.lean   # #print axioms of every theorem",
             "trusted_base": prop.TRUSTED_BASE,
             "evaluations": evals, "distinct_nontrivial": len(nontriv),
